@@ -46,6 +46,7 @@ type RTNamed []int
 type RTMapNamed map[gen.Atom][]byte
 type RTNamedStr string
 type RTMarsh struct{ V uint32 }
+
 // RTBlob travels through encoding.BinaryMarshaler
 type RTBlob struct{ D []byte }
 
